@@ -69,8 +69,13 @@ func deriveChild(sa *security.IKESAKey, e, i int, nonce []byte) (ref.ChildKeys, 
 
 // deriveChildOn keys an existing Child SA object.
 func deriveChildOn(c *security.ChildSAKey, sa *security.IKESAKey, nonce []byte) (ref.ChildKeys, error) {
+	return deriveChildRaw(c, sa, append([]byte(nil), nonce...))
+}
+
+// deriveChildRaw hands the nonce slice to the library as it is (no private copy).
+func deriveChildRaw(c *security.ChildSAKey, sa *security.IKESAKey, nonce []byte) (ref.ChildKeys, error) {
 	var out ref.ChildKeys
-	err := probe.Try(func() error { return c.GenerateKeyForChildSA(sa, append([]byte(nil), nonce...)) })
+	err := probe.Try(func() error { return c.GenerateKeyForChildSA(sa, nonce) })
 	if err != nil {
 		return out, err
 	}
